@@ -1154,6 +1154,11 @@ func (*writer).Delete
     // C02: whenever the newest message is deleted the new empty head is named after NextOffset, so the
     // offset is not handed out again (also after a reopen)
     ensures[struct_newhead] ret2 == nil && (ret1 != nil || len(rs.SurviveOffsets) == 0) ==> ret0.segment.Offset == old(w.index.nextOffset)
+    // the segment holding the survivors is named after the lowest surviving offset (C01/C12: it is the file the
+    // rewrite was renamed to, not the one that was removed)
+    ensures[struct_named]   ret2 == nil && len(rs.SurviveOffsets) > 0 ==>
+                                (ret1 != nil ==> has(rs.SurviveOffsets, ret1.segment.Offset) && (forall o int64 :: has(rs.SurviveOffsets, o) ==> ret1.segment.Offset <= o))
+                                && (ret1 == nil ==> has(rs.SurviveOffsets, ret0.segment.Offset) && (forall o int64 :: has(rs.SurviveOffsets, o) ==> ret0.segment.Offset <= o))
     ensures[struct_newest]  ret2 == nil && !has(rs.SurviveOffsets, old(w.index.nextOffset) - 1) ==> ret0.segment.Offset == old(w.index.nextOffset)
     // C17: the handle keeps the configured version for segments it creates later
     ensures[version_kept]   ret2 == nil ==> ret0.version == old(w.version) && (ret1 != nil ==> ret1.version == old(w.version))
